@@ -399,6 +399,17 @@ def overlap_case(ctx, case):
         '/invalidate': (204, b'', 'text/plain'),
         '/session/minecraft/join': (204, b'', 'text/plain')}
 
+    fails = case.get('a_fails')
+    if fails:
+        # A ends in an HTTP error reply ('without altering stored
+        # credentials') while B, on the same token, succeeds in between
+        paths = {'authenticate': '/authenticate', 'refresh': '/refresh',
+                 'validate': '/validate', 'invalidate': '/invalidate',
+                 'join': '/session/minecraft/join',
+                 'sign_out': '/signout'}
+        b_, ct_, _e = body_for(fails[1], case['a'][0], 3)
+        srv.reply_by_path[paths[case['a'][0]]] = (fails[0], b_, ct_)
+
     def token(tag):
         t = A.AuthenticationToken(username='user' + tag,
                                   access_token='acc' + tag,
@@ -420,19 +431,30 @@ def overlap_case(ctx, case):
             return json.loads(r['body'].decode('utf-8'))
         except ValueError:
             return r['body']
+
+    def outcome(fn):
+        # an operation's result: its return value or the error it raises
+        def run():
+            try:
+                return ('returned', fn())
+            except Exception as e:
+                return ('raised', type(e).__name__,
+                        getattr(e, 'status_code', None), str(e))
+        return run
     try:
         alone = []
         for tag, op in (('A', case['a']), ('B', case['b'])):
             t = token('A' if case['same_token'] else tag)
             del srv.requests[:]
-            res = call(t, op)()
+            res = outcome(call(t, op))()
             alone.append((res, [(r['path'], body_of(r))
                                 for r in srv.requests], snapshot(t)))
         ta = token('A')
         tb = ta if case['same_token'] else token('B')
         del srv.requests[:]
-        ra, rb, ran = run_interleaved(call(ta, case['a']),
-                                      call(tb, case['b']), case['k'])
+        ra, rb, ran = run_interleaved(outcome(call(ta, case['a'])),
+                                      outcome(call(tb, case['b'])),
+                                      case['k'])
         reqs = [(r['path'], body_of(r)) for r in srv.requests]
     except Exception as e:
         ctx.fail('overlap', 'Y-overlapping-operations-raise', case, exc=e)
@@ -441,6 +463,30 @@ def overlap_case(ctx, case):
         srv.reply_by_path = {}
     if not ran:
         ctx.label('overlap_point_beyond_call')
+        return
+    if fails:
+        # A stores nothing at any point, so the token ends up holding what
+        # B stored; A's request may be built from the credentials before or
+        # after B's store (only its endpoint is compared)
+        if (alone[0][0][0] != 'raised' and case['a'][0] != 'validate') or \
+                alone[1][0][0] != 'returned':
+            from vlib.core import HarnessError
+            raise HarnessError('C19 overlap: stand-in replies %r' % (alone,))
+        if sorted(p_ for p_, b_ in reqs) != sorted(
+                p_ for p_, b_ in alone[0][1] + alone[1][1]):
+            ctx.fail('overlap', 'Y2-payload', case, reqs,
+                     alone[0][1] + alone[1][1])
+            return
+        if (ra, rb) != (alone[0][0], alone[1][0]):
+            ctx.fail('overlap', 'Y4-results', case, (ra, rb),
+                     (alone[0][0], alone[1][0]))
+            return
+        if snapshot(ta) != alone[1][2]:
+            ctx.fail('overlap', 'Y4-failed-operation-altered-credentials',
+                     case, snapshot(ta), alone[1][2])
+            return
+        ctx.nt('overlap', repr(case))
+        ctx.label('overlap_failing_with_succeeding')
         return
     want_reqs = alone[0][1] + alone[1][1]
     key = lambda r: json.dumps(r, sort_keys=True, default=repr)   # noqa
@@ -513,10 +559,12 @@ def t_subsets(ctx, lo, hi):
                         'reply classes (single step)')
 
 
-def t_overlap(ctx):
+def t_overlap(ctx, part):
     ro = [['join', 'hashA'], ['join', '-5f3a'], ['validate'], ['invalidate']]
     rw = ro + [['refresh'], ['authenticate', 'bob', 'pw']]
     for same in (True, False):
+        if part != (0 if same else 1):
+            continue
         ops = ro if same else rw
         for a in ops:
             for b in ops:
@@ -528,6 +576,24 @@ def t_overlap(ctx):
                     before = ctx.labels.get('overlap_point_beyond_call', 0)
                     overlap_case(ctx, {'a': a, 'b': b, 'same_token': same,
                                        'k': k})
+                    if ctx.labels.get('overlap_point_beyond_call',
+                                      0) > before:
+                        break
+    # a failing operation overlapped by a succeeding, storing one on the
+    # same token
+    store = [['refresh'], ['authenticate', 'bob', 'pw']]
+    for a in rw:
+        for b in store:
+            if a[0] == b[0]:
+                continue
+            for fi, fl in enumerate(([403, 'full'], [500, 'text'],
+                                     [400, 'partial_error'])):
+                if part != 2 + fi:
+                    continue
+                for k in range(1, 80):
+                    before = ctx.labels.get('overlap_point_beyond_call', 0)
+                    overlap_case(ctx, {'a': a, 'b': b, 'same_token': True,
+                                       'k': k, 'a_fails': fl})
                     if ctx.labels.get('overlap_point_beyond_call',
                                       0) > before:
                         break
@@ -552,7 +618,7 @@ def t_random(ctx, n):
 
 def tasks(tier):
     q = tier == 'quick'
-    tl = [('overlap', t_overlap, {})]
+    tl = [('overlap_%d' % i, t_overlap, dict(part=i)) for i in range(5)]
     for i in range(4):
         tl.append(('subsets_%d' % i, t_subsets, dict(lo=8 * i, hi=8 * i + 8)))
     for i in range(8 if q else 14):
